@@ -81,7 +81,7 @@ def install(w):
                    "ghost('ff_calls') == at_iter_start(ghost('ff_calls')) + 1"]},
                       2: {"step_post": [
                    "ghost('frag_calls') == at_iter_start(ghost('frag_calls')) + 1"]}},
-               props={"C14"})
+               props={"C14", "C13"})
 
     # ---- a field map against a spread (and, recursively, the spreads it references) ----------------
     w.contract(f"{OF}.collect_conflicts_between_fields_and_fragment",
@@ -103,7 +103,7 @@ def install(w):
                        "same(arg_fragment_spread, referenced_fragment_spread)"]},
                loops={1: {"step_post": [
                    "ghost('ff_calls') == at_iter_start(ghost('ff_calls')) + 1"]}},
-               props={"C14", "C01"})
+               props={"C14", "C01", "C13"})
 
     # ---- spread against spread ---------------------------------------------------------------------
     w.contract(f"{OF}.collect_conflicts_between_fragments",
@@ -136,10 +136,22 @@ def install(w):
                        member("referenced_fragment_spreads1", "arg_fragment_spread1"),
                        "same(arg_fragment_spread2, fragment_spread2)"]},
                loops={1: {"step_post": [
-                   "ghost('frag_calls') == at_iter_start(ghost('frag_calls')) + 1"]},
+                   "ghost('frag_calls') == at_iter_start(ghost('frag_calls')) + 1"],
+                          "invariant": ["ghost('frag_calls') == old(ghost('frag_calls')) + _i",
+                                        "ghost('between_calls') == old(ghost('between_calls')) + 1"]},
                       2: {"step_post": [
-                   "ghost('frag_calls') == at_iter_start(ghost('frag_calls')) + 1"]}},
-               props={"C14", "C01"})
+                   "ghost('frag_calls') == at_iter_start(ghost('frag_calls')) + 1"],
+                          "invariant": ["ghost('frag_calls') == old(ghost('frag_calls'))"
+                                        " + len(referenced_fragment_spreads2) + _i",
+                                        "ghost('between_calls') == old(ghost('between_calls')) + 1"]}},
+               # once both fragments are found and their field maps collected, nothing is skipped:
+               # the two field maps meet once (F) and every nested spread of either side meets the
+               # other spread once (G) - whatever the field maps contain
+               exit_post=["implies(same(field_map2, field_map2),"
+                          " ghost('between_calls') == old(ghost('between_calls')) + 1"
+                          " and ghost('frag_calls') == old(ghost('frag_calls'))"
+                          " + len(referenced_fragment_spreads2) + len(referenced_fragment_spreads1))"],
+               props={"C14", "C01", "C13"})
 
     # ---- the sub-selections of two fields: side 1 against side 2 -----------------------------------
     w.contract(f"{OF}.find_conflicts_between_sub_selection_sets",
@@ -180,7 +192,7 @@ def install(w):
                       2: {"step_post": ["ghost('ff_calls') == at_iter_start(ghost('ff_calls')) + 1"]},
                       4: {"step_post": [
                           "ghost('frag_calls') == at_iter_start(ghost('frag_calls')) + 1"]}},
-               props={"C14"})
+               props={"C14", "C13"})
 
 
 def install_sort(w):
@@ -197,7 +209,7 @@ def install_sort(w):
                raises=["Exception"], modifies=[],
                call_pre={"sort_value_node#1": ["same(arg_value_node, field.value)"]},
                havoc_stmts=["values = {k: getattr(field, k) for k in field.keys}"],
-               waive=WAIVE, props={"C14"})
+               waive=WAIVE, props={"C14", "C13"})
 
 
 _install_overlap = install
@@ -284,7 +296,7 @@ def install_find_conflict(w):
                        "same(arg_selection_set1, field1[1].selection_set)",
                        "same(arg_selection_set2, field2[1].selection_set)",
                        "same(arg_var_map1, var_map1)", "same(arg_var_map2, var_map2)"]},
-               props={"C14"})
+               props={"C14", "C13"})
 
 
 _install_overlap2 = install
@@ -319,7 +331,7 @@ def install_pair_loops(w):
                    "arg_field1[1] is field[1]", "arg_field2[1] is other_field[1]",
                    "is_none(arg_var_map1)", "is_none(arg_var_map2)"]},
                loops={3: {"step_post": REC}},
-               override=True, props={"C14"})
+               override=True, props={"C14", "C13"})
     w.contract(f"{OF}.collect_conflicts_between",
                params=dict(SHARED, parent_fields_are_mutually_exclusive="bool", field_map1=FMAP,
                            var_map1=D, field_map2=FMAP, var_map2=D),
@@ -330,7 +342,7 @@ def install_pair_loops(w):
                    "arg_field1[1] is field1[1]", "arg_field2[1] is field2[1]",
                    "same(arg_var_map1, var_map1)", "same(arg_var_map2, var_map2)"]},
                loops={3: {"step_post": REC}},
-               override=True, props={"C14"})
+               override=True, props={"C14", "C13"})
 
 
 _install_overlap3 = install
